@@ -20,8 +20,13 @@
      numeric result is not needed by any rewrite are section parameters
      [un_sem], [bin_sem]: every theorem holds for all of them;
    * covered: every constructor of Tree.expr except class expressions,
-     assignments, ++/--, delete and optional chains (oc <> 0): those evaluate to
-     None and are excluded from the theorems' hypotheses (eval e = Some _);
+     assignments, ++/-- and delete: those evaluate to None and are excluded
+     from the theorems' hypotheses (eval e = Some _);
+   * optional chains (13.3.9): a node with oc = 1 (a?.b) short-circuits the whole
+     chain when its target is null/undefined; a node with oc = 2 continues the
+     chain of its target; any other context ends the chain.  Short-circuiting is
+     the internal abrupt completion Throw VShort, caught where the chain ends; a
+     world operation throwing that marker is outside the semantics (None);
    * the receiver (this) of a method call is not tracked: the callee value
      returned by the property read stands for the bound method. *)
 From V Require Import Common.Base C03.Num C03.Tree.
@@ -32,7 +37,8 @@ Inductive value :=
 | VObjLit              (* object created by a literal: {} /re/ *)
 | VArr                 (* array created by a literal *)
 | VFun                 (* function created by a literal *)
-| VSym (id : Z).
+| VSym (id : Z)
+| VShort.              (* internal: completion marker of a short-circuited optional chain; never a world's throw *)
 
 Inductive outcome := Val (v : value) | Throw (v : value).
 Definition trace := list Z.
@@ -65,6 +71,7 @@ Definition typeof_value (v : value) : list Z :=
   | VUndef => s_undefined | VNull => s_object | VBool _ => s_boolean | VNum _ => s_number
   | VBig _ => s_bigint | VStr _ => s_string | VObj _ | VObjLit | VArr => s_object | VFun => s_function
   | VSym _ => s_symbol
+  | VShort => s_undefined
   end.
 
 (* 7.2.15 IsStrictlyEqual; None when it would compare the identity of an
@@ -126,7 +133,13 @@ Section Semantics.
 
   (* an effectful step of the world performed at the current time *)
   Definition eff (tr : trace) (f : nat -> trace * outcome) : option (trace * outcome) :=
-    let '(t2, o) := f (length tr) in Some (tr ++ t2, o).
+    let '(t2, o) := f (length tr) in
+    match o with
+    | Throw VShort => None
+    | _ => Some (tr ++ t2, o)
+    end.
+
+
 
   Definition lbind (r : option (trace * lres)) (k : trace -> list value -> option (trace * outcome)) : option (trace * outcome) :=
     match r with
@@ -172,6 +185,24 @@ Section Semantics.
     | Some (tr, Throw x) => Some (tr, LThrow x)
     | None => None
     end.
+
+  (* end of an optional chain *)
+  Definition catch_short (r : option (trace * outcome)) : option (trace * outcome) :=
+    match r with
+    | Some (t, Throw VShort) => Some (t, Val VUndef)
+    | _ => r
+    end.
+
+  (* the steps of the three chain-capable nodes, given the evaluated target *)
+  Definition short_if (oc : Z) (tr : trace) (v : value) (k : option (trace * outcome)) : option (trace * outcome) :=
+    if (oc =? 1) && nullish v then Some (tr, Throw VShort) else k.
+  Definition dot_step (rt : option (trace * outcome)) (name : list Z) (oc : Z) : option (trace * outcome) :=
+    bind rt (fun tr1 ov => short_if oc tr1 ov (eff tr1 (w_get W ov (VStr name)))).
+  Definition index_step (rt : option (trace * outcome)) (evi : trace -> option (trace * outcome)) (oc : Z) : option (trace * outcome) :=
+    bind rt (fun tr1 ov => short_if oc tr1 ov
+      (bind (evi tr1) (fun tr2 kv => bind (eff tr2 (w_tokey W kv)) (fun tr3 key => eff tr3 (w_get W ov key))))).
+  Definition call_step (rt : option (trace * outcome)) (evargs : trace -> option (trace * lres)) (oc : Z) : option (trace * outcome) :=
+    bind rt (fun tr1 fv => short_if oc tr1 fv (lbind (evargs tr1) (fun tr2 vs => eff tr2 (w_call W fv vs)))).
 
   Notation evaluator := (trace -> expr -> option (trace * outcome)).
 
@@ -248,16 +279,11 @@ Section Semantics.
           end
         else Some (tr, Val (w_lenv W ref))
     | EDot t name oc _ _ =>
-        if oc =? 0 then bind (eval tr t) (fun tr1 ov => eff tr1 (w_get W ov (VStr name))) else None
+        catch_short (dot_step (if oc =? 2 then eval_raw tr t else eval tr t) name oc)
     | EIndex t i oc =>
-        if oc =? 0 then
-          bind (eval tr t) (fun tr1 ov => bind (eval tr1 i) (fun tr2 kv =>
-            bind (eff tr2 (w_tokey W kv)) (fun tr3 key => eff tr3 (w_get W ov key))))
-        else None
+        catch_short (index_step (if oc =? 2 then eval_raw tr t else eval tr t) (fun tr1 => eval tr1 i) oc)
     | ECall t args oc _ =>
-        if oc =? 0 then
-          bind (eval tr t) (fun tr1 fv => lbind (eval_items tr1 args []) (fun tr2 vs => eff tr2 (w_call W fv vs)))
-        else None
+        catch_short (call_step (if oc =? 2 then eval_raw tr t else eval tr t) (fun tr1 => eval_items tr1 args []) oc)
     | ENew t args _ =>
         bind (eval tr t) (fun tr1 fv => lbind (eval_items tr1 args []) (fun tr2 vs => eff tr2 (w_new W fv vs)))
     | EArray items => lbind (eval_items tr items []) (fun tr1 _ => Some (tr1, Val VArr))
@@ -330,44 +356,89 @@ Section Semantics.
     | EIf t y n =>
         bind (eval tr t) (fun tr1 x => if truthy x then eval tr1 y else eval tr1 n)
     | _ => None
+    end
+  (* the same three nodes without ending the chain: used for the target of an oc = 2 node *)
+  with eval_raw (tr : trace) (e : expr) {struct e} : option (trace * outcome) :=
+    let eval_items :=
+      fix go (tr : trace) (l : list expr) (acc : list value) {struct l} : option (trace * lres) :=
+        match l with
+        | [] => Some (tr, LVals acc)
+        | x :: r =>
+            match x with
+            | ESpread v => lstep (bind (eval tr v) (fun tr1 xv => eff tr1 (w_spread W xv))) acc (fun tr2 acc2 => go tr2 r acc2)
+            | EMissing => go tr r acc
+            | _ => lstep (eval tr x) acc (fun tr2 acc2 => go tr2 r acc2)
+            end
+        end in
+    match e with
+    | EDot t name oc _ _ => dot_step (if oc =? 2 then eval_raw tr t else eval tr t) name oc
+    | EIndex t i oc => index_step (if oc =? 2 then eval_raw tr t else eval tr t) (fun tr1 => eval tr1 i) oc
+    | ECall t args oc _ => call_step (if oc =? 2 then eval_raw tr t else eval tr t) (fun tr1 => eval_items tr1 args []) oc
+    | _ => None
     end.
 
+  (* the target of a chain-capable node *)
+  Definition eval_target (oc : Z) (tr : trace) (t : expr) : option (trace * outcome) :=
+    if oc =? 2 then eval_raw tr t else eval tr t.
+
   (* the local list evaluators of [eval] are the named ones *)
-  Lemma eval_array_eq : forall items tr,
-    eval tr (EArray items) = lbind (eval_items_with eval tr items []) (fun tr1 _ => Some (tr1, Val VArr)).
+  Lemma items_local_eq : forall args tr acc,
+    (fix go (tr : trace) (l : list expr) (acc : list value) {struct l} : option (trace * lres) :=
+        match l with
+        | [] => Some (tr, LVals acc)
+        | x :: r =>
+            match x with
+            | ESpread v => lstep (bind (eval tr v) (fun tr1 xv => eff tr1 (w_spread W xv))) acc (fun tr2 acc2 => go tr2 r acc2)
+            | EMissing => go tr r acc
+            | _ => lstep (eval tr x) acc (fun tr2 acc2 => go tr2 r acc2)
+            end
+        end) tr args acc = eval_items_with eval tr args acc.
   Proof.
-    intros items tr. cbn [eval]. f_equal. generalize (@nil value). revert tr.
-    induction items as [|x r IH]; intros tr acc; [reflexivity|].
-    cbn [eval_items_with]. destruct x; try (unfold lstep; destruct (eval tr _) as [[t [v|v]]|]; try reflexivity; apply IH).
+    induction args as [|x r IH]; intros tr acc; [reflexivity|].
+    cbn [eval_items_with]. destruct x; try (unfold lstep; destruct (eval tr _) as [[t0 [v|v]]|]; try reflexivity; apply IH).
     - apply IH.
-    - unfold lstep. destruct (bind _ _) as [[t [v|v]]|]; try reflexivity. apply IH.
+    - unfold lstep. destruct (bind _ _) as [[t0 [v|v]]|]; try reflexivity. apply IH.
+  Qed.
+
+  Lemma call_step_ext : forall rt f g oc, (forall t, f t = g t) -> call_step rt f oc = call_step rt g oc.
+  Proof.
+    intros rt f g oc H. unfold call_step. destruct rt as [[t [v|v]]|]; cbn [bind]; try reflexivity.
+    unfold short_if. destruct ((oc =? 1) && nullish v); [reflexivity|]. rewrite H. reflexivity.
   Qed.
 
   Lemma eval_call_eq : forall t args oc p tr,
     eval tr (ECall t args oc p) =
-    if oc =? 0 then bind (eval tr t) (fun tr1 fv => lbind (eval_items_with eval tr1 args []) (fun tr2 vs => eff tr2 (w_call W fv vs)))
-    else None.
+    catch_short (call_step (eval_target oc tr t) (fun tr1 => eval_items_with eval tr1 args []) oc).
   Proof.
-    intros t args oc p tr. cbn [eval]. destruct (oc =? 0); [|reflexivity].
-    destruct (eval tr t) as [[tr1 [fv|x]]|]; cbn [bind]; try reflexivity. f_equal.
-    generalize (@nil value). generalize tr1.
-    induction args as [|x r IH]; intros tr0 acc; [reflexivity|].
-    cbn [eval_items_with]. destruct x; try (unfold lstep; destruct (eval tr0 _) as [[t0 [v|v]]|]; try reflexivity; apply IH).
-    - apply IH.
-    - unfold lstep. destruct (bind _ _) as [[t0 [v|v]]|]; try reflexivity. apply IH.
+    intros t args oc p tr. cbn [eval]. unfold eval_target. f_equal.
+    apply call_step_ext. intros t0. apply items_local_eq.
   Qed.
+
+  Lemma eval_raw_call_eq : forall t args oc p tr,
+    eval_raw tr (ECall t args oc p) =
+    call_step (eval_target oc tr t) (fun tr1 => eval_items_with eval tr1 args []) oc.
+  Proof.
+    intros t args oc p tr. cbn [eval_raw]. unfold eval_target.
+    apply call_step_ext. intros t0. apply items_local_eq.
+  Qed.
+
+  Lemma eval_dot_eq : forall t name oc c s tr,
+    eval tr (EDot t name oc c s) = catch_short (dot_step (eval_target oc tr t) name oc).
+  Proof. reflexivity. Qed.
+  Lemma eval_index_eq : forall t i oc tr,
+    eval tr (EIndex t i oc) = catch_short (index_step (eval_target oc tr t) (fun tr1 => eval tr1 i) oc).
+  Proof. reflexivity. Qed.
+
+  Lemma eval_array_eq : forall items tr,
+    eval tr (EArray items) = lbind (eval_items_with eval tr items []) (fun tr1 _ => Some (tr1, Val VArr)).
+  Proof. intros items tr. cbn [eval]. f_equal. apply items_local_eq. Qed.
 
   Lemma eval_new_eq : forall t args p tr,
     eval tr (ENew t args p) =
     bind (eval tr t) (fun tr1 fv => lbind (eval_items_with eval tr1 args []) (fun tr2 vs => eff tr2 (w_new W fv vs))).
   Proof.
     intros t args p tr. cbn [eval].
-    destruct (eval tr t) as [[tr1 [fv|x]]|]; cbn [bind]; try reflexivity. f_equal.
-    generalize (@nil value). generalize tr1.
-    induction args as [|x r IH]; intros tr0 acc; [reflexivity|].
-    cbn [eval_items_with]. destruct x; try (unfold lstep; destruct (eval tr0 _) as [[t0 [v|v]]|]; try reflexivity; apply IH).
-    - apply IH.
-    - unfold lstep. destruct (bind _ _) as [[t0 [v|v]]|]; try reflexivity. apply IH.
+    destruct (eval tr t) as [[tr1 [fv|x]]|]; cbn [bind]; try reflexivity. f_equal. apply items_local_eq.
   Qed.
 
   Lemma bind_ext : forall r k1 k2, (forall t v, k1 t v = k2 t v) -> bind r k1 = bind r k2.
